@@ -201,6 +201,21 @@ def main() -> int:
         klabels = [k["match"]["label"] for k in load_known() if k["property"] and k.get("status") == "known" and k.get("match", {}).get("label")]
         with ctx.Pool(nproc, initializer=_init_worker, initargs=(_PROTO, TREE, klabels)) as pool:
             results = pool.map(_worker, jobs, chunksize=1)
+        # second chance for obligations that only timed out (a busy machine must not turn "held" into "undecided"):
+        # the jobs that own them are run once more, few at a time, with tripled solver budgets
+        def _timed_out(r: dict) -> bool:
+            return any(x["status"] == "unknown" and pid in x["serves"] and x["kind"] != "cover"
+                       and not any(lab in x["label"] for lab in klabels) for x in r.get("rows", []))
+        redo = [j for j, r in zip(jobs, results) if not r.get("error") and _timed_out(r)
+                and not any(x["status"] == "refuted" and x["kind"] != "cover" for x in r["rows"])][:6]
+        if redo:
+            os.environ["PYVC_Z3_MS"] = str(3 * int(os.environ.get("PYVC_Z3_MS", "10000")))
+            os.environ["PYVC_RETRY_MS"] = "60000"
+            with ctx.Pool(min(3, len(redo)), initializer=_init_worker, initargs=(_PROTO, TREE, klabels)) as pool:
+                again = pool.map(_worker, redo, chunksize=1)
+            for j, r2 in zip(redo, again):
+                if not r2.get("error"):
+                    results[jobs.index(j)] = r2
     if pid == "C12":
         results.append(global_frame_rows(pid))
     errors = [r for r in results if r.get("error")]
